@@ -104,7 +104,7 @@ func RuleK10Only(r *Report, p *Program, which map[string]bool) {
 	tmp := NewReport(r.Property, r.Tier)
 	ruleK10All(tmp, p)
 	docs := map[string]string{
-		"K10":  "every HH:mm built from parsed integers has hours in 0..24, minutes in 0..59 and minutes 0 when hours is 24",
+		"K10":  "every HH:mm parser accepts exactly the domain: hours 0..23 with minutes 0..59, and 24:00 (nothing beyond it is constructed, nothing inside it is rejected)",
 		"K10a": "a decoder returns (nil, error) when the BCD digits are not decimal",
 		"K10b": "a calendar-impossible date or time never yields a fabricated value: the decoder returns the zero value or an error",
 	}
@@ -157,6 +157,7 @@ func ruleK10All(r *Report, p *Program) {
 			paths := walkSimple(p, fn, nil, helpers)
 			bad := ""
 			n := 0
+			var grid [25][60]bool
 			for _, pa := range paths {
 				if pa.Outcome != "return" {
 					continue
@@ -184,10 +185,29 @@ func ruleK10All(r *Report, p *Program) {
 					if !hr.Intersect(IntervalSet{{24, 24}}).Empty() && !mr.Equal(IntervalSet{{0, 0}}) {
 						bad = "24:" + mr.String() + " is accepted"
 					}
+					for _, h := range valuesOf(hr.Intersect(IntervalSet{{0, 24}})) {
+						for _, m := range valuesOf(mr.Intersect(IntervalSet{{0, 59}})) {
+							grid[h][m] = true
+						}
+					}
 				}
 			}
 			if n > 0 {
-				r.Check(bad == "", "K10", name, p.Pos(fn.Pos()), fmt.Sprintf("%d constructions", n), bad)
+				// completeness: everything the writer can emit is accepted (00:00..23:59 and 24:00)
+				if bad == "" {
+					for h := 0; h <= 24 && bad == ""; h++ {
+						for m := 0; m <= 59; m++ {
+							if h == 24 && m > 0 {
+								break
+							}
+							if !grid[h][m] {
+								bad = fmt.Sprintf("the valid time %02d:%02d is not accepted", h, m)
+								break
+							}
+						}
+					}
+				}
+				r.Check(bad == "", "K10", name, p.Pos(fn.Pos()), fmt.Sprintf("%d constructions; accepts exactly 00:00..23:59 and 24:00", n), bad)
 			}
 		}
 		if fn.Name() == "UnmarshalUT0311L0x" {
